@@ -255,7 +255,7 @@ def _quantify(interp, gen, kind):
     if len(node.generators) != 1:
         return None
     g = node.generators[0]
-    it = interp.eval(g.iter, env)
+    it = gen.first if getattr(gen, "first", None) is not None else interp.eval(g.iter, env)
     si = sym_iter(it)
     if si is None:
         return ("concrete", it)
